@@ -43,6 +43,13 @@ CHECKS.update({
         design='4/C17'),
 })
 
+CHECKS.update({
+    'C10': dict(level='proof', technique='abstract interpretation on order cells partitioning all argument tuples + comparison-only dataflow check',
+        text=('eq/cmp/lt/le/gt/ge/min/max/clamp, derived PartialEq/PartialOrd/Ord, Float::max/min, neg, abs, signum, copysign, is_sign_*, is_zero, is_nar/is_nan/is_finite, classify '
+              'for P8E0/P16E1/P32E2 and the comparison fns + Neg of PxE1/PxE2 are evaluated exactly on a partition of all argument tuples; every obligation is discharged and the result '
+              '(an argument, its negation or a constant) agrees with the order of the represented reals.'), design='4/C10'),
+})
+
 NOT_APPLICABLE = {
 }
 
